@@ -126,6 +126,7 @@ func (vm *VM) resetPath(prefix []Decision) {
 	vm.declared = map[string]symDecl{}
 	vm.unknowns = 0
 	vm.mapIDs = 0
+	vm.regions = nil
 	vm.frozenOn = false
 	vm.frozen, vm.frozenMaps = nil, nil
 }
@@ -151,16 +152,15 @@ func (vm *VM) runPath(fn *ssa.Function, args []Value, prefix []Decision) (out pa
 					site = e.Stack[len(e.Stack)-1]
 				}
 				id := site + ": " + firstLine(e.Msg)
-				model := map[string]string{}
-				if vm.countFindings("panic", id) < maxFindingsPerID {
-					if vm.Solver.Check() == smt.Sat {
-						model = vm.modelStrings()
-					} else {
-						model["__note"] = "path condition not re-confirmed sat"
-					}
+				if vm.Solver.Check() == smt.Sat {
+					model := vm.modelStrings()
+					vm.recordFinding("panic", id, e.Msg, model, e.Stack)
+					vm.outsideRegions("panic", id, e.Msg, smt.True, model, e.Stack)
+					out = pathOutcome{"panic", e.Msg}
+				} else {
+					// no model: the panic cannot be replayed, so it is not reported
+					out = pathOutcome{"inconclusive", "panic reached but the solver could not produce a model of the path (" + firstLine(e.Msg) + ")"}
 				}
-				vm.recordFinding("panic", id, e.Msg, model, e.Stack)
-				out = pathOutcome{"panic", e.Msg}
 			case pathAbort:
 				out = pathOutcome{"abort", e.reason}
 			default:
